@@ -178,7 +178,12 @@ def real_models():
     out.append(("skygrid", [
         {"id": "m", "type": "PiecewiseConstantCoalescentGridModel", "theta": P("theta", [2.0, 1.0, 3.0]), "grid": [1.0, 2.0],
          "times": [0.0, 0.0, 0.5, 0.8, 1.1, 1.9, 2.5], "events": [1, 1, 1, 0, 1, 0, 0]}], "m", {"theta": "pos"}))
+    out.append(("skyride", [
+        {"id": "m", "type": "PiecewiseConstantCoalescentModel", "theta": P("theta", [2.0, 1.0, 3.0]),
+         "times": [0.0, 0.0, 0.5, 0.8, 1.1, 1.9, 2.5], "events": [1, 1, 1, 0, 1, 0, 0]}], "m", {"theta": "pos"}))
     ev = zoo.evo_args("t4.fa", "t4.nwk")
+    docsr = zoo.cli_json(["advi"] + ev + ["-m", "JC69", "--clock", "strict", "--coalescent", "skyride"])
+    out.append(("skyride-on-tree", docsr, "coalescent", {"coalescent.theta.log": "real", "tree.ratios.unres": "real", "tree.root_height.unshifted.unres": "real"}))
     doc = zoo.cli_json(["advi"] + ev + ["-m", "HKY", "-C", "3", "--clock", "strict", "--coalescent", "constant"])
     out.append(("tree-likelihood-hky-g3-strict", doc, "like",
                 {"substmodel.kappa.unres": "real", "sitemodel.shape.unres": "real", "branchmodel.rate.unres": "real", "tree.ratios.unres": "real",
@@ -219,7 +224,11 @@ def check_real_model(ctx: Ctx, name, doc, target, domains, rnd, tier):
     pids = sorted(domains)
     subsets = [s for r in range(1, len(pids) + 1) for s in itertools.combinations(pids, r)]
     if len(subsets) > (10 if tier == "quick" else 40):
-        subsets = rnd.sample(subsets, 10 if tier == "quick" else 40)
+        # every parameter batched ALONE is always included (a model that forgets one of its inputs when it infers the sample shape
+        # only shows when that input is the sole batched one); the rest is sampled
+        singles = [s for s in subsets if len(s) == 1]
+        rest = [s for s in subsets if len(s) > 1]
+        subsets = singles + rnd.sample(rest, min(len(rest), max(3, (10 if tier == "quick" else 40) - len(singles))))
     # sample sizes that coincide with structural sizes (states 4, categories 3 / 3+1, branches 5 / 6, taxa 4) are where a wrong
     # broadcast stays shape-valid
     for shape in ([2], [3], [4], [2, 3]) if tier == "quick" else ([1], [2], [3], [4], [5], [6], [2, 3], [3, 2], [4, 4], [2, 4], [3, 5]):
